@@ -1291,26 +1291,34 @@ impl LSMIterator for TransactionRangeIterator<'_> {
 			return self.seek_first();
 		}
 
-		// Direction change: backward → forward
+		// Direction change: backward → forward. Re-position both sources
+		// strictly after the current key; the side that was exhausted going
+		// backward has entries again going forward.
 		if self.direction != MergeDirection::Forward {
 			self.direction = MergeDirection::Forward;
 			self.is_key_equal = false;
+			if self.current_source == CurrentSource::None {
+				return Ok(false);
+			}
+			let current = self.key().user_key().to_vec();
 
-			if !self.snapshot_iter.valid() || !self.ws_valid() {
-				self.seek_ws_first();
-			} else if self.current_source == CurrentSource::Snapshot {
-				self.advance_ws();
-			} else {
+			let mut encoded = current.clone();
+			encoded.extend_from_slice(&u64::MAX.to_be_bytes());
+			encoded.extend_from_slice(&u64::MAX.to_be_bytes());
+			self.snapshot_iter.seek(&encoded)?;
+			if self.snapshot_iter.valid() && self.snapshot_iter.key().user_key() == current.as_slice() {
 				self.snapshot_iter.next()?;
 			}
 
-			// Check if now at equal keys
-			if self.snapshot_iter.valid()
-				&& self.ws_valid()
-				&& self.snapshot_iter.key().user_key() == self.ws_key()
-			{
-				self.is_key_equal = true;
-			}
+			let pos =
+				self.write_set_entries.partition_point(|(k, _)| k.as_slice() <= current.as_slice());
+			self.ws_pos = if pos < self.write_set_entries.len() {
+				Some(pos)
+			} else {
+				None
+			};
+
+			return self.position_to_min();
 		}
 
 		// Advance CURRENT source (or both if is_key_equal)
@@ -1338,26 +1346,31 @@ impl LSMIterator for TransactionRangeIterator<'_> {
 			return self.seek_last();
 		}
 
-		// Direction change: forward → backward
+		// Direction change: forward → backward. Re-position both sources
+		// strictly before the current key; the side that was exhausted going
+		// forward has entries again going backward.
 		if self.direction != MergeDirection::Backward {
 			self.direction = MergeDirection::Backward;
 			self.is_key_equal = false;
+			if self.current_source == CurrentSource::None {
+				return Ok(false);
+			}
+			let current = self.key().user_key().to_vec();
 
-			if !self.snapshot_iter.valid() || !self.ws_valid() {
-				self.seek_ws_last();
-			} else if self.current_source == CurrentSource::Snapshot {
-				self.advance_ws();
-			} else {
+			let mut encoded = current.clone();
+			encoded.extend_from_slice(&u64::MAX.to_be_bytes());
+			encoded.extend_from_slice(&u64::MAX.to_be_bytes());
+			if self.snapshot_iter.seek(&encoded)? {
 				self.snapshot_iter.prev()?;
+			} else {
+				self.snapshot_iter.seek_last()?;
 			}
 
-			// Check if now at equal keys
-			if self.snapshot_iter.valid()
-				&& self.ws_valid()
-				&& self.snapshot_iter.key().user_key() == self.ws_key()
-			{
-				self.is_key_equal = true;
-			}
+			let pos =
+				self.write_set_entries.partition_point(|(k, _)| k.as_slice() < current.as_slice());
+			self.ws_pos = pos.checked_sub(1);
+
+			return self.position_to_max();
 		}
 
 		// Advance CURRENT source (or both if is_key_equal)
